@@ -67,7 +67,11 @@ for _tier, _n in (("quick", 100), ("thorough", 2000)):
     FLOORS[_tier].update({"history:step:" + k: int(0.04 * _n) for k in (
         "stringio_b_after_path_a", "handle_b_after_path_a", "path_b_after_refusal", "path_a_after_objects", "handle_a_after_two_paths",
         "stringio_a_after_two_paths", "path_a_other_dtype", "path_a_first_dtype_again", "stringio_a_after_refusal", "handle_a_after_io_fault")})
+for _tier, _n in (("quick", 70), ("thorough", 1400)):
+    FLOORS[_tier].update({"header_faults:wide_range_small_end_files": int(0.4 * 0.45 * 5 * _n), "header_faults:base_values_wide_positive": int(0.1 * _n),
+                          "header_faults:base_values_wide_negative": int(0.1 * _n), "header_faults:base_values_wide_small": int(0.1 * _n)})
 for _tier, _n in (("quick", 300), ("thorough", 6000)):
+    FLOORS[_tier].update({"format:header_number_without_leading_zero": int(0.06 * _n), "format:body_number_without_leading_zero": int(0.03 * _n)})
     FLOORS[_tier].update({"format:" + k: int(f * _n) for k, f in (
         ("id_line_leading_blanks", 0.12), ("id_line_leading_tab", 0.03), ("id_line_trailing_blanks", 0.1), ("id_with_inner_blank", 0.06), ("crlf_line_ends", 0.04),
         ("tab_between_numbers", 0.06), ("indented_lines", 0.1), ("trailing_blanks_on_lines", 0.08), ("blank_lines_at_end", 0.06), ("no_final_newline", 0.03))})
@@ -404,6 +408,11 @@ def run_case(run, tap, stream, index, rng):  # noqa: U100
         other = "float32" if _effective(dtype) == np.dtype("float64") else "float64"
         _routes(run, mon, text, other, "wellformed", tag + "b", ("path", "stringio"))
         run.count("values:%s" % spec.kind)
+        nolead = re.compile(r"^[+-]?\.\d")
+        if any(nolead.match(t) for t in spec.sn + spec.we + spec.z):
+            run.count("format:header_number_without_leading_zero")
+        if any(nolead.match(t) for row in spec.rows for t in row):
+            run.count("format:body_number_without_leading_zero")
         for flag, on in (("id_line_leading_blanks", bool(spec.id_indent)), ("id_line_leading_tab", "\t" in spec.id_indent), ("id_line_trailing_blanks", bool(spec.id_trail)),
                          ("id_with_inner_blank", " " in spec.grid_id), ("crlf_line_ends", spec.eol == "\r\n"), ("tab_between_numbers", "\t" in spec.sep),
                          ("indented_lines", bool(spec.indent)), ("trailing_blanks_on_lines", bool(spec.trail)), ("blank_lines_at_end", spec.extra_blank_lines > 0),
@@ -424,9 +433,13 @@ def run_case(run, tap, stream, index, rng):  # noqa: U100
         dtype = _dtype_arg(rng)
         square = index % 4 == 3
         shape = sf.random_shape(rng, 12, 15, square=square) if index % 5 else sf.random_shape(rng, 40, 60, square=square)
-        spec = sf.random_spec(rng, _effective(dtype), shape=shape, blanks=bool(index % 2), plain=index % 3 == 0)
+        wide = sf.WIDE_KINDS[(index // 2) % 3] if index % 2 == 0 else None  # every other base file spans a wide dynamic range
+        spec = sf.random_spec(rng, _effective(dtype), shape=shape, blanks=bool(index % 4 < 2), plain=index % 3 == 0, value_kind=wide)
+        if wide:
+            run.count("header_faults:base_values_%s" % wide)
         _routes(run, mon, spec.render(), dtype, "wellformed", tag, ("path", "stringio"))
         faults = sf.header_faults(rng, spec)
+        run.count("header_faults:wide_range_small_end_files", sum(1 for k, _ in faults if k.startswith("wide_range_small_end")))
         for n, (kind, text) in enumerate(faults):
             _routes(run, mon, text, dtype, "header:" + kind, "%s-%d" % (tag, n), ("path", "stringio") if n % 3 else ("path", "handle"))
         run.count("header_fault_files", len(faults))
